@@ -228,6 +228,18 @@ func enforce(c *Case) {
 	runtime.LockOSThread()
 	hookInstall()
 	f := buildFilter(c)
+	if c.PreloadOnOtherThread {
+		done := make(chan string)
+		go func() {
+			runtime.LockOSThread()
+			done <- errString(seccomp.LoadFilter(buildFilter(c)))
+			select {} // the thread stays alive with its filter
+		}()
+		emit(map[string]any{"ev": "preloaded", "err": <-done})
+		instMu.Lock()
+		installs = nil
+		instMu.Unlock()
+	}
 	emit(map[string]any{"ev": "start", "pid": os.Getpid(), "tid": syscall.Gettid(), "goarch": goarch, "before": statusFields(syscall.Gettid())})
 	err := seccomp.LoadFilter(f)
 	msg := ""
